@@ -1168,6 +1168,13 @@ fn apply(w: &mut World, op: &Op, obs: &mut Obs) -> Result<Option<String>, String
             if w.m.verts.len() > 8 {
                 return Ok(None);
             }
+            // the scalar (and every factor) is squared: keep the squares inside the 64-bit
+            // mantissas, beyond which quizx legitimately rounds and flags them approximate
+            // (exactness of scalar arithmetic is C07's subject, not this check's)
+            let big = |z: &Zw| z.c.iter().any(|c| c.unsigned_abs() > (1 << 14)) || z.e.abs() > (1 << 20);
+            if big(&w.m.scalar) || w.m.factors.values().any(big) {
+                return Ok(None);
+            }
             // model: duplicate everything, scalar squared, boundary lists unchanged
             let old = w.m.clone();
             let mut map: BTreeMap<Mid, Mid> = BTreeMap::new();
